@@ -94,6 +94,7 @@ def handleVoi (j : Json) : Option Json := do
   let upper ← optField? j "upper" getSv?
   let equals ← optField? j "equals" getSv?
   let bounds ← fieldBool? j "bounds"
+  let swapNeg ← fieldBool? j "swap_neg"
   match determineAdderScaler ref0 ref adder scaler with
   | .error e => pure (jErr "das" e)
   | .ok (ta, ts) =>
@@ -133,10 +134,9 @@ def handleVoi (j : Json) : Option Json := do
         | some y, some (f, o) => jRats (y.map (unitConv f o))
       let bnd : Except Err (List (String × Json)) :=
         if !bounds then .ok [] else
-        match scaleBound inf true a s n lower, scaleBound inf false a s n upper with
-        | .error e, _ => .error e
-        | _, .error e => .error e
-        | .ok lo, .ok hi =>
+        match scaledBounds swapNeg inf a s n lower upper with
+        | .error e => .error e
+        | .ok (lo, hi) =>
           match equals with
           | none => .ok [("lower", jRats lo), ("upper", jRats hi), ("equals", Json.null)]
           | some eq =>
